@@ -17,6 +17,7 @@ CONSTANTS
   SingValues <- MC_SingValues
   FinalEn <- MC_FinalEn
   Stages <- MC_Stages
+  ObjCands <- MC_ObjCands
   PRPredict <- MC_NoPR
 INVARIANT DenClosed
 INVARIANT TopDerivExact
